@@ -1,4 +1,5 @@
 import Abyss.Lemmas.ScanL
+import Abyss.Lemmas.IterL
 import Abyss.Props.C01
 /-!
 # C04 — iteration yields each live entry exactly once, with exact size hints
@@ -34,13 +35,25 @@ theorem C04_iter {kt : KeyType} {s : Store} (h : Inv kt s) :
       kvs.Perm (abs s) ∧ (kvs.map Prod.fst).Nodup ∧ kvs.length = s.count ∧
       hints = (List.range (s.count + 1)).map (fun i => s.count - i) ∧
       (∀ k, s.iterStays k itEnd) := by
-  sorry
+  have hstay : ∀ k it, At s it [] s.n → s.iterStays k it := by
+    intro k
+    induction k with
+    | zero => intro _ _; trivial
+    | succ k ih =>
+      intro it hat
+      obtain ⟨it', h1, h2⟩ := iterNext_end (good_of_inv h) it hat
+      exact ⟨it', h1, ih it' h2⟩
+  obtain ⟨itEnd, hall, hend⟩ := iterAll_spec h
+  refine ⟨_, _, itEnd, hall, restFrom_zero_perm h, restFrom_zero_keys_nodup h, ?_, rfl,
+    fun k => hstay k itEnd hend⟩
+  rw [List.length_map, restFrom_zero_length h]
 
 /-- `keys()` and `values()` are the projections of the same traversal -/
 theorem C04_keys_values {kt : KeyType} {s : Store} (h : Inv kt s) :
     ∃ kvs hints itEnd, s.iterAll = some (kvs, hints, itEnd) ∧
       (kvs.map Prod.fst).Perm ((abs s).map Prod.fst) ∧ (kvs.map Prod.snd).Perm ((abs s).map Prod.snd) := by
-  sorry
+  obtain ⟨kvs, hints, itEnd, h1, h2, _⟩ := C04_iter h
+  exact ⟨kvs, hints, itEnd, h1, h2.map _, h2.map _⟩
 
 /-- non-vacuity / regression witness of the defect fixed by `fix: bitmap scan …`: a table of
 128 buckets with bucket 119 occupied is traversed correctly -/
